@@ -178,6 +178,79 @@ def _process_probe(ctx, res, joblib, T, rng, combos, runs, cases):
             res.fail("not-reusable-after-failure", case, dict(second=second))
 
 
+def managed_reuse_probe(ctx, res, props, runs, cases=None):
+    """C01 on the real process backends with `batch_size='auto'` (round 5): SUCCESSIVE calls on one Parallel object - inside a
+    `with Parallel(...)` block the loky / multiprocessing backends keep their auto-batching statistics from call to call - a
+    long list first (the batch size grows), then short lists and generators: every call must return the results of ITS tasks,
+    in order, whatever the earlier calls left in the backend."""
+    import os
+    if "C01" not in props or os.environ.get("VERIF_M1_NO_ROUND5"):
+        return
+    joblib = core.use_repo()
+    from . import native_tasks as T
+    rng = ctx.rng("native-managed-reuse")
+    backends = ["loky", "multiprocessing"]
+    rng.shuffle(backends)
+    for r in range(runs if cases is None else len(cases)):
+        backend = backends[r % 2]
+        managed = rng.random() < 0.8
+        nj = rng.choice([2, 2, 3])
+        plan = [(rng.choice([300, 400, 600]), "list")]
+        for _ in range(rng.choice([4, 6])):
+            plan.append((rng.choice([1, 3, 7, 25, 30, 40]), rng.choice(["list", "list", "generator", "sized-lazy"])))
+        if cases is not None:
+            c = cases[r]
+            backend, managed, nj, plan = c["backend"], c["managed"], c["n_jobs"], [tuple(x) for x in c["plan"]]
+        case = dict(kind="native-managed-reuse", backend=backend, managed=managed, n_jobs=nj, plan=[list(x) for x in plan])
+        box = {"calls": []}
+
+        class Lazy:
+            def __init__(self, n):
+                self.n = n
+
+            def __len__(self):
+                return self.n
+
+            def __iter__(self):
+                return (joblib.delayed(T.ok)(i) for i in range(self.n))
+
+        def body():
+            p = joblib.Parallel(n_jobs=nj, backend=backend)
+            if managed:
+                p.__enter__()
+            try:
+                for n, kind in plan:
+                    inp = ([joblib.delayed(T.ok)(i) for i in range(n)] if kind == "list" else Lazy(n) if kind == "sized-lazy"
+                           else (joblib.delayed(T.ok)(i) for i in range(n)))
+                    try:
+                        box["calls"].append(("returned", p(inp)))
+                    except BaseException as e:  # noqa: BLE001
+                        box["calls"].append(("raised", type(e).__name__))
+                    box["bs"] = getattr(p._backend, "_effective_batch_size", None)
+            finally:
+                if managed:
+                    p.__exit__(None, None, None)
+            box["done"] = True
+
+        t = threading.Thread(target=body, daemon=True)
+        t.start()
+        t.join(240)
+        res.evaluations += 1
+        res.count("native-managed-reuse-runs")
+        res.nontrivial.add(("native-managed-reuse", backend, managed, nj, tuple(plan)))
+        if t.is_alive():
+            res.fail("call-never-returns", case, dict(calls_finished=len(box["calls"]), note="did not finish within 240 s"))
+            continue
+        for k, ((n, kind), got) in enumerate(zip(plan, box["calls"])):
+            if got[0] == "raised":
+                res.fail("unexpected-exception:" + got[1], case, dict(call=k, input=kind, n=n))
+                break
+            if got[1] != [3 * i for i in range(n)]:
+                res.fail("wrong-results:call-on-reused-object", case,
+                         dict(call=k, input=kind, n=n, got_len=len(got[1]), got_head=got[1][:5], effective_batch_size_left=box.get("bs")))
+                break
+
+
 def legacy_backend_probe(ctx, res, props, runs):
     """C01/C04 on a backend WITHOUT retrieve-callback support (the legacy / third-party protocol of
     `ParallelBackendBase`: the caller fetches results itself through `backend.retrieve_result(job)`): submission has
